@@ -67,7 +67,22 @@ enum Op {
     Msg(Kind, usize),
     Flush,
     Fail(FailKind, bool), // bool: through send_* (true) or enqueue_call (false)
+    /// (small-buffer build only) a message whose document is `d - 1` bytes longer than what still
+    /// fits below the buffer limit together with its terminator: d = 0 fits exactly, d = 1 leaves
+    /// no room for the terminator, larger ones do not fit at all.  Whether it is accepted is the
+    /// implementation's answer (C17 judges that); C02 judges what happens to the bytes.
+    Big(Kind, usize),
 }
+
+/// The buffer limit of the small-buffer build.
+#[cfg(zlink_verif_small_buf)]
+const LIMIT: usize = 4096;
+#[cfg(zlink_verif_small_buf)]
+const BIG_D: &[usize] = &[0, 1, 2, 300];
+#[cfg(not(zlink_verif_small_buf))]
+const LIMIT: usize = usize::MAX;
+#[cfg(not(zlink_verif_small_buf))]
+const BIG_D: &[usize] = &[];
 
 fn pad(n: usize, salt: usize) -> String {
     (0..n).map(|i| (b'a' + ((i + salt) % 26) as u8) as char).collect()
@@ -257,14 +272,19 @@ impl Harness for Histories {
             let free = buf_len(&conn) - m.pending.len();
             let lens = self.lens(free);
             let nmsg = lens.len() * KINDS.len();
-            let c = cx.choose(nmsg + 1 + FAILS.len() * 2, "op");
+            let nfail = FAILS.len() * 2;
+            let nbig = if self.reduced { 0 } else { BIG_D.len() * KINDS.len() };
+            let c = cx.choose(nmsg + 1 + nfail + nbig, "op");
             let op = if c < nmsg {
                 Op::Msg(KINDS[c % KINDS.len()], lens[c / KINDS.len()])
             } else if c == nmsg {
                 Op::Flush
-            } else {
+            } else if c < nmsg + 1 + nfail {
                 let k = c - nmsg - 1;
                 Op::Fail(FAILS[k / 2], k % 2 == 1)
+            } else {
+                let k = c - nmsg - 1 - nfail;
+                Op::Big(KINDS[k % KINDS.len()], BIG_D[k / KINDS.len()])
             };
             let what = format!("step {step} {op:?} (free space {free}, {} bytes pending)", m.pending.len());
             cx.log(|| format!("{what}"));
@@ -288,11 +308,16 @@ impl Harness for Histories {
                     if doc.len() != dl {
                         xplore::bug!("doc_len({k:?},{len}) = {dl} but the document has {} bytes", doc.len());
                     }
-                    if let Err(e) = res {
-                        return Verdict::fail("outframe:valid-message-refused", format!("{what}: returned {e:?}"));
+                    match res {
+                        // with what is already pending this message reaches the buffer limit
+                        // (small-buffer build, after an accepted limit-sized message): a refusal
+                        Err(zlink_core::Error::BufferOverflow) if m.pending.len().saturating_add(dl + 1) >= LIMIT => m.check(&wire, false, &what),
+                        Err(e) => return Verdict::fail("outframe:valid-message-refused", format!("{what}: returned {e:?}")),
+                        Ok(()) => {
+                            m.accept(doc);
+                            m.check(&wire, *k != Kind::EnqCall, &what)
+                        }
                     }
-                    m.accept(doc);
-                    m.check(&wire, *k != Kind::EnqCall, &what)
                 }
                 Op::Flush => {
                     if m.pending.is_empty() {
@@ -302,6 +327,33 @@ impl Harness for Histories {
                         return Verdict::fail("outframe:flush-failed", format!("{what}: returned {e:?}"));
                     }
                     m.check(&wire, true, &what)
+                }
+                Op::Big(k, d) => {
+                    let len = (LIMIT.saturating_sub(m.pending.len() + 1) + d).max(1);
+                    if *d == 1 {
+                        cx.goal("document-ends-exactly-at-the-limit");
+                    }
+                    if !m.pending.is_empty() {
+                        cx.goal("oversized-message-with-earlier-enqueued");
+                    }
+                    let (res, doc) = do_msg(&mut conn, *k, len, step);
+                    match res {
+                        Ok(()) => {
+                            if *d >= 2 {
+                                cx.goal("beyond-the-limit-yet-accepted");
+                            }
+                            m.accept(doc);
+                            m.check(&wire, *k != Kind::EnqCall, &what)
+                        }
+                        // refused: nothing of it may ever reach the transport, what was enqueued
+                        // before stays pending, and the connection carries on (the following steps
+                        // and the final flush check exactly that)
+                        Err(zlink_core::Error::BufferOverflow) if m.pending.len() + doc.len() + 1 >= LIMIT => {
+                            cx.goal("message-refused-at-the-limit");
+                            m.check(&wire, false, &what)
+                        }
+                        Err(e) => return Verdict::fail("outframe:oversized-message-wrong-error", format!("{what}: returned {e:?}")),
+                    }
                 }
                 Op::Fail(f, through_send) => {
                     if !m.pending.is_empty() {
@@ -425,6 +477,13 @@ pub fn run(tier: Tier) -> i32 {
         "send-with-earlier-enqueued",
     ] {
         rep.require_goal(g);
+    }
+    if !BIG_D.is_empty() {
+        for g in ["document-ends-exactly-at-the-limit", "message-refused-at-the-limit", "oversized-message-with-earlier-enqueued"] {
+            rep.require_goal(g);
+        }
+        rep.rule.push_str("; built with the buffer limit lowered to 4096 bytes (hook zlink_verif_small_buf), the full histories also contain messages sized against the limit: the document that fits exactly with its terminator, the one that leaves no room for the terminator, one and 300 bytes more - whether such a message is accepted is C17's question, here a refused one must contribute no bytes, now or at any later flush, and leave the earlier enqueued messages and the connection usable");
+        rep.assumptions.push("this check is built with the buffer limit lowered to 4096 bytes so that a refusal by size is an affordable operation; all other sizes used stay below 1.5 KB".into());
     }
     let wall = std::time::Duration::from_secs(tier.pick(60, 1500));
     let cfg = Config { max_wall: wall, ..Default::default() };
